@@ -29,6 +29,10 @@ var ErrInjected = errors.New("verifmem: injected write failure")
 
 var errNotFound = errors.New("verifmem: not found")
 
+// ErrInjectedRead is returned by a read (Get / Has / iterator) that the harness asked to fail: a
+// transient storage error, NOT a "not found" answer (kvdb.ErrNotFound is false for it).
+var ErrInjectedRead = errors.New("verifmem: injected read failure (input/output error)")
+
 // Op is one mutation inside a write.
 type Op struct {
 	Del bool
@@ -56,6 +60,10 @@ type World struct {
 	failAt   int // fail the attempt with this 1-based number (0 = never)
 	failed   int // number of injected failures so far
 	record   bool
+	// read fault injection (default off: readFailAt = 0)
+	reads      int // number of reads (Get / Has / iterator creation) since ArmFailRead / ResetReads
+	readFailAt int // fail the read with this 1-based number (0 = never)
+	readFailed int // number of injected read failures so far
 }
 
 type store struct {
@@ -261,6 +269,40 @@ func (w *World) InjectedFailures() int {
 	return w.failed
 }
 
+// ArmFailRead makes the k-th read from now on (Get, Has or iterator creation, on any database of the
+// world) fail with ErrInjectedRead (k >= 1); 0 disarms. The read counter restarts at 0 either way.
+// Only that one read fails: the next one works again (a transient read error).
+func (w *World) ArmFailRead(k int) {
+	w.mu.Lock()
+	w.reads = 0
+	w.readFailAt = k
+	w.mu.Unlock()
+}
+
+// Reads returns the number of reads since the last ArmFailRead (or since the world was created).
+func (w *World) Reads() int {
+	w.mu.Lock()
+	defer w.mu.Unlock()
+	return w.reads
+}
+
+// InjectedReadFailures returns how many reads have been failed on purpose.
+func (w *World) InjectedReadFailures() int {
+	w.mu.Lock()
+	defer w.mu.Unlock()
+	return w.readFailed
+}
+
+// readFault counts one read and says whether it is the one to fail; the caller holds w.mu.
+func (w *World) readFault() bool {
+	w.reads++
+	if w.readFailAt > 0 && w.reads == w.readFailAt {
+		w.readFailed++
+		return true
+	}
+	return false
+}
+
 // Dump returns a copy of one database's content.
 func (w *World) Dump(rel string) map[string][]byte {
 	w.mu.Lock()
@@ -363,6 +405,9 @@ func (d *db) Get(key []byte) ([]byte, error) {
 	jitter()
 	d.w.mu.Lock()
 	defer d.w.mu.Unlock()
+	if d.w.readFault() {
+		return nil, ErrInjectedRead
+	}
 	v, ok := d.w.stores[d.rel].data[string(key)]
 	if !ok {
 		return nil, errNotFound
@@ -373,6 +418,9 @@ func (d *db) Get(key []byte) ([]byte, error) {
 func (d *db) Has(key []byte) (bool, error) {
 	d.w.mu.Lock()
 	defer d.w.mu.Unlock()
+	if d.w.readFault() {
+		return false, ErrInjectedRead
+	}
 	_, ok := d.w.stores[d.rel].data[string(key)]
 	return ok, nil
 }
@@ -408,6 +456,10 @@ func (d *db) iter(start, limit []byte) kvdb.Iterator {
 	jitter()
 	d.w.mu.Lock()
 	defer d.w.mu.Unlock()
+	if d.w.readFault() {
+		// like goleveldb: the iterator exists, yields nothing and reports the error
+		return &iter{pos: -1, err: ErrInjectedRead}
+	}
 	data := d.w.stores[d.rel].data
 	it := &iter{pos: -1}
 	for k, v := range data {
@@ -433,6 +485,7 @@ type iter struct {
 	keys []string
 	vals [][]byte
 	pos  int
+	err  error // set when the creation of the iterator was failed on purpose
 }
 
 func (it *iter) valid() bool { return it.pos >= 0 && it.pos < len(it.keys) }
@@ -462,7 +515,7 @@ func (it *iter) Prev() bool {
 }
 func (it *iter) Last() bool   { it.pos = len(it.keys) - 1; return it.valid() }
 func (it *iter) First() bool  { it.pos = 0; return it.valid() }
-func (it *iter) Error() error { return nil }
+func (it *iter) Error() error { return it.err }
 func (it *iter) Release()     {}
 
 // ---- kvdb.Batch ----
